@@ -214,6 +214,20 @@ theorem pessimistic_over_own_prewrite_refused (s : Store) (wf : WaitFor) (r : PL
 theorem commit_pessimistic_lock_no_data (l : Lock) (k : Bytes) (T C : Nat) (h : l.op = .pessimisticLock) :
     commitLock l k T C = [Act.delLock k] := by simp [commitLock, h]
 
+/-- a prewrite over the transaction's own pessimistic lock is not re-checked for write conflicts at its start ts: the
+    only conflict-value call made is the one at for-update ts +∞ (which keeps the rollback-marker and assertion checks),
+    whatever newer commits of other transactions the key carries -/
+theorem prewrite_over_own_pessimistic_lock_checks_at_infinity (s : Store) (r : PrewriteReq) (m : Mutation) (act : PAction)
+    (l : Lock) (hl : (getEntry s.kv m.key).lock = some l) (hs : l.startTS = r.startTS) (hp : l.op = .pessimisticLock) :
+    prewriteMutation s r m act =
+      match checkConflictValue ⟨m, maxU64, r.startTS, false, r.assertOn, false, false⟩ (getEntry s.kv m.key).writes with
+      | .error err => .error err
+      | .ok _ => .ok [Act.putLock m.key ⟨r.startTS, r.primary, m.value, if m.op == .insert then Op.put else m.op,
+          if r.ttl < l.ttl then l.ttl else r.ttl, 0, r.txnSize,
+          if r.primary == m.key then (if r.minCommitTS < l.minCommitTS then l.minCommitTS else r.minCommitTS) else 0⟩] := by
+  simp only [prewriteMutation, hl, hs, hp, bne_self_eq_false, Bool.false_eq_true, if_false]
+  cases checkConflictValue _ (getEntry s.kv m.key).writes <;> rfl
+
 /-! ## non-vacuity: the hypotheses are satisfiable by a non-trivial store -/
 example : Desc [⟨.put, 10, 20, [1]⟩, ⟨.rollback, 5, 5, []⟩] ∧
     WellTimed [⟨.put, 10, 20, [1]⟩, ⟨.rollback, 5, 5, []⟩] ∧ NoMix [⟨.put, 10, 20, [1]⟩, ⟨.rollback, 5, 5, []⟩] ∧
